@@ -773,3 +773,25 @@ add('Angle.set#copy', 'meth', 'set', 'mutator_capture', _copy_set('Angle'), 0.4,
 add('Epoch.set#copy', 'meth', 'set', 'mutator_capture', _copy_set('Epoch'), 0.4, 120, 'Epoch')
 add('Interpolation.set#copy', 'meth', 'set', 'mutator_capture', _copy_set('Interpolation'), 0.4, 30, 'Interpolation')
 add('CurveFitting.set#copy', 'meth', 'set', 'mutator_capture', _copy_set('CurveFitting'), 0.3, 30, 'CurveFitting')
+
+
+# ------------------------------------------------------------------ VSOP evaluators on caller-owned tables
+def _own_table(g):
+    series = []
+    for k in range(g.rng.randint(2, 4)):
+        terms = []
+        for _ in range(g.rng.randint(1, 4)):
+            terms.append(g.mk([g.fv(g.rng.uniform(1e3, 1e8) / (10 ** k)), g.f(0, 6.28), g.f(0, 7000)], 'list'))
+        series.append(g.mk(terms, 'list'))
+    return g.mk(series, 'list')
+
+
+def _vsop_own(g):
+    return [g.ep(-1900, 3900), _own_table(g), _own_table(g), _own_table(g)]
+
+
+add('Coordinates.vsop_pos#own', 'call', CO + 'vsop_pos', 'pure', lambda g: (None, _vsop_own(g), {}), 0.5, 300, 'Coordinates')
+add('Coordinates.geometric_vsop_pos#own', 'call', CO + 'geometric_vsop_pos', 'pure',
+    lambda g: (None, _vsop_own(g) + ([g.b()] if g.rng.random() < 0.5 else []), {}), 0.4, 400, 'Coordinates')
+add('Coordinates.apparent_vsop_pos#own', 'call', CO + 'apparent_vsop_pos', 'pure',
+    lambda g: (None, _vsop_own(g), {}), 0.3, 5000, 'Coordinates')
